@@ -1,5 +1,5 @@
 import Ecal.Lemmas.EvalHeap
-import Ecal.Lemmas.ContainerPaths
+import Ecal.Lemmas.EvalPaths
 import Ecal.Lemmas.EvalFrame
 import Ecal.Lemmas.EvalLists
 import Ecal.Lemmas.EvalNew
@@ -17,7 +17,7 @@ equations that tie the mutual evaluator to these functions.
 
 Proved: lookup_nearest, assign_nearest_or_local, let_local, inner_not_visible_outside, call_fresh_locals,
 closure_sees_definition_scope, call_does_not_write_enclosing_frames, args_missing_default_extra_ignored,
-prims_by_value_containers_by_ref, read_after_write (+ _list, _paths), len_add_del_model, add_insert_concat_model,
+prims_by_value_containers_by_ref, read_after_write (cell) and read_after_write_path (setValue / getValue), len_add_del_model, add_insert_concat_model,
 new_has_all_template_props (transitive), own_property_wins, method_this, init_once_with_args,
 init_once_with_args_and_supers, init_reads_super, addSuperClasses_cycle.  Hypotheses are listed with each theorem.
 -/
@@ -299,19 +299,39 @@ theorem args_missing_default_extra_ignored (ev : Ecal.Parse.Node → M Val) (fvs
         simp only [bindParamNodes]
         rw [hstep q i (by omega), ih (i + 1) (by omega)]
 
-/-- Numbers, strings, booleans are values; a list or a map is a reference to a heap cell.  Writing the map
-    cell `r` (through whatever variable or path led to it) is seen by every holder of `.map r`: after
-    `mapStore` under the key of segment `fld`, reading segment `fld` of cell `r` gives `x` — while a plain
-    assignment `b := x` only replaces the variable (see `assign_touches_one_scope`). -/
-theorem prims_by_value_containers_by_ref (st : St) (r : Nat) (fld : List Nat) (x : Val) (hr : r < st.maps.size)
-    (hnum : ∀ i, atoi fld = some i → keyEq (.num (Float.ofInt i)) (.num (Float.ofInt i)) = true) :
-    let st' : St := { st with maps := st.maps.setIfInBounds r (mapStore (st.maps.getD r []) (fieldKey (st.maps.getD r []) fld) x) }
-    mapFieldLookup (st'.maps.getD r []) fld = some x := by
-  intro st'
-  have : st'.maps.getD r [] = mapStore (st.maps.getD r []) (fieldKey (st.maps.getD r []) fld) x := by
-    simp [st', hr]
-  rw [this]
-  exact mapField_read_after_write _ fld x hnum
+/-- Numbers, strings, booleans are values, lists and maps references.  BY REFERENCE: a successful write through one
+    name into a map or list cell is read through ANY other name (another variable, from another scope — e.g. a
+    parameter and the caller's variable — or another path) that reaches the same cell with the same last segment.
+    BY VALUE: a value of the other kinds refers to no heap cell (`cellOf = none` — there is nothing to share), and a
+    plain assignment `b := x` replaces only the variable in one scope and leaves the heap alone
+    (`assign_nearest_or_local`, `assign_touches_one_scope`). -/
+theorem prims_by_value_containers_by_ref :
+    (∀ (sc : Nat) (name v0 : List Nat) (pre : List (List Nat)) (last : List Nat) (x c cont : Val) (st st' : St)
+      (sc2 : Nat) (name2 v2 : List Nat) (pre2 : List (List Nat)) (c2 : Val),
+      splitDots name2 = v2 :: (pre2 ++ [last]) → pre2.length < 10000 →
+      runM (lookupVar sc2 (bytesToString v2)) st = (.ok (some c2), st) →
+      (∀ w, cellOf cont = some w → StepsAvoid st w pre2 c2 cont) →
+      splitDots name = v0 :: (pre ++ [last]) →
+      runM (lookupVar sc (bytesToString v0)) st = (.ok (some c), st) →
+      runM (setValue sc name x) st = (.ok (), st') →
+      ((∃ r, cont = .map r ∧ r < st.maps.size ∧ StepsAvoid st (true, r) pre c cont ∧
+          ∀ i, atoi last = some i → keyEq (.num (Float.ofInt i)) (.num (Float.ofInt i)) = true) ∨
+       (∃ r l, cont = .list r l ∧ r < st.lists.size ∧ l ≤ (st.backing r).length ∧ StepsAvoid st (false, r) pre c cont)) →
+      runM (getValue sc2 name2) st' = (.ok (x, isSet x), st')) ∧
+    (∀ b f s, cellOf .null = none ∧ cellOf (.bool b) = none ∧ cellOf (.num f) = none ∧ cellOf (.str s) = none) ∧
+    (∀ (st : St) (sc : Nat) (v : String) (x : Val), (st.withVar sc v x).lists = st.lists ∧ (st.withVar sc v x).maps = st.maps) :=
+  ⟨fun sc name v0 pre last x c cont st st' sc2 name2 v2 pre2 c2 hn2 hlen2 hv2 hav2 hn hv hset hcell =>
+      setValue_getValue_alias sc name v0 pre last x c cont st st' sc2 name2 v2 pre2 c2 hn2 hlen2 hv2 hav2 hn hv hset hcell,
+   fun _ _ _ => ⟨rfl, rfl, rfl, rfl⟩,
+   fun st sc v x => ⟨(withVar_heap st sc v x).1, (withVar_heap st sc v x).2.1⟩⟩
+
+/-- non-vacuity: `a` and `b` both hold map 0; `b.k := true` is read through `a.k` -/
+def exAlias : St := { scopes := #[⟨"g", none, [], [("a", .map 0), ("b", .map 0)]⟩], maps := #[[]] }
+def exAlias' : St := (runM (setValue 0 [98, 46, 107] (.bool true)) exAlias).2
+example : runM (getValue 0 [97, 46, 107]) exAlias' = (.ok (.bool true, true), exAlias') :=
+  prims_by_value_containers_by_ref.1 0 [98, 46, 107] [98] [] [107] (.bool true) (.map 0) (.map 0) exAlias exAlias' 0 [97, 46, 107] [97] [] (.map 0)
+    (by decide) (by decide) rfl (fun w _ => StepsAvoid.nil _) (by decide) rfl rfl
+    (Or.inl ⟨0, rfl, by decide, StepsAvoid.nil _, by intro i h; simp [atoi] at h⟩)
 
 /-- After `c[k] := v` / `c.k := v` on a map the same segment reads `v`: for string keys, and for NUMBER keys —
     `fieldKey` takes an existing number key (the repair of 5e0a7a5), otherwise the string form, and the read
@@ -325,9 +345,31 @@ theorem read_after_write (kvs : List (Val × Val)) (fld : List Nat) (x : Val)
 example : mapFieldLookup (mapStore [] (fieldKey [] [107]) (.bool true)) [107] = some (.bool true) :=
   read_after_write [] [107] (.bool true) (by intro i h; simp [atoi] at h)
 
-/-- list cells: a write at a valid index is read back at that index -/
-theorem read_after_write_list (b : List Val) (i : Nat) (x : Val) (h : i < b.length) : (b.set i x)[i]? = some x := by
-  simp [h]
+/-- Clause "after a successful `c[k] := v` / `c.k := v`, reading `c[k]` yields `v`" on `setValue` / `getValue`
+    THEMSELVES, any nesting (`containerWalk` on the write side and `containerGet` on the read side reach the same
+    cell; `fieldKey` is the key `setValue` writes — `setValue_path`; negative list indices through `listIdx`): the
+    same dotted name read after a successful write yields the written value.  Hypotheses: the container reached is
+    an existing map or list cell (slice with len ≤ capacity), the walk does not pass through the very cell that is
+    written (no cycle), and for a numeric last segment on a map `==` is reflexive on that number (not NaN). -/
+theorem read_after_write_path (sc : Nat) (name v0 : List Nat) (pre : List (List Nat)) (last : List Nat) (x c cont : Val)
+    (st st' : St) (hn : splitDots name = v0 :: (pre ++ [last])) (hlen : pre.length < 10000)
+    (hv : runM (lookupVar sc (bytesToString v0)) st = (.ok (some c), st))
+    (hset : runM (setValue sc name x) st = (.ok (), st'))
+    (hcell : (∃ r, cont = .map r ∧ r < st.maps.size ∧ StepsAvoid st (true, r) pre c cont ∧
+               ∀ i, atoi last = some i → keyEq (.num (Float.ofInt i)) (.num (Float.ofInt i)) = true) ∨
+             (∃ r l, cont = .list r l ∧ r < st.lists.size ∧ l ≤ (st.backing r).length ∧ StepsAvoid st (false, r) pre c cont)) :
+    runM (getValue sc name) st' = (.ok (x, isSet x), st') :=
+  setValue_getValue sc name v0 pre last x c cont st st' hn hlen hv hset hcell
+
+/-- non-vacuity: `a := {"k": [null, null]}`, then `a.k[-1] := true` (name `a.k.-1`) is read back -/
+def exHeap : St :=
+  { scopes := #[⟨"g", none, [], [("a", .map 0)]⟩], maps := #[[(.str [107], .list 1 2)]], lists := #[[], [.null, .null]] }
+example : ∃ st', runM (setValue 0 [97, 46, 107, 46, 45, 49] (.bool true)) exHeap = (.ok (), st') ∧
+    runM (getValue 0 [97, 46, 107, 46, 45, 49]) st' = (.ok (.bool true, true), st') := by
+  refine ⟨_, rfl, ?_⟩
+  refine read_after_write_path 0 [97, 46, 107, 46, 45, 49] [97] [[107]] [45, 49] (.bool true) (.map 0) (.list 1 2) exHeap _
+    (by decide) (by decide) rfl rfl (Or.inr ⟨1, 2, rfl, by decide, by decide, ?_⟩)
+  exact StepsAvoid.cons [107] [] (.map 0) (.list 1 2) (.list 1 2) (by decide) rfl (StepsAvoid.nil _)
 
 /-- `runBuiltin` (inside the mutual block) answers len / add / del / concat / new with the functions the
     theorems below are about. -/
@@ -627,11 +669,5 @@ theorem init_reads_super (ev : Ecal.Parse.Node → M Val) (fr : FuncRec) (params
     st'.nearest fvs (bytesToString superName) = some fvs ∧ st'.valueIn fvs (bytesToString superName) = sl := by
   have := buildFrame_super ev fr params args st st' fvs sl hsuper hav hev h
   exact ⟨this.2.2.2, this.2.2.1⟩
-
-/-- Any nesting (maps with number and string keys, lists with negative indices) on acyclic tree values: a
-    successful write through a flattened access path is read back through the same path. -/
-theorem read_after_write_paths (atoi : String → Option Int) (segs : List String) (v v' x : Ecal.Sc.Val)
-    (hne : segs ≠ []) (h : Ecal.Sc.setPath atoi v segs x = .ok v') : Ecal.Sc.getPath atoi v' segs = .ok x :=
-  Ecal.Sc.read_after_write atoi segs v v' x hne h
 
 end Ecal.Props.C05
